@@ -135,6 +135,14 @@ CHECKS["C15"] = dict(
 
 # additions of the third session, appended to the texts above (see DESIGN.md section 0)
 EXTRA = {
+ "C12": " Added: ResultPath in bracket notation with member names that are not identifiers (recorded known finding), every spelling of a Context Object selection of the Task token.",
+ "C13": " Added: numeric literal tokens (integers, fractions; exponent forms outside the claim), States.Format rendering of JSON scalars.",
+ "C14": " Added: ...Path operands are read from the effective input (InputPath applied), the same Variable used by several rules.",
+ "C15": " Added: the child result under its documented member names, a child or grandchild must stop when the parent Task timed out, cancelled children with a fan-out, callback streams with two callback Tasks / a retried callback Task, every spelling of the token selection ($$.Task.Token, bracket forms, whole $$.Task), callback output with an errorType member (recorded known finding).",
+ "C16": " Added: the history limit cannot be intercepted by Retry/Catch, payload type validation of StartSyncExecution / SendTaskSuccess.",
+ "C17": " Added: the Name a child execution is launched with (validated like the API's), names rebuilt by every deriving site for wordy names.",
+ "C18": " Added: states named like keywords (Next, End, States ...) with each defect placed in them, ill-formed Task replies on the reply queue, numeric fields (MaxConcurrency, Seconds, TimeoutSeconds, HeartbeatSeconds) - validator-accepted values must run, the same definitions stored without validation must still end.",
+ "C20": " Added: an execution record lost from the store while its events are in flight is restored, over the file and Redis stores.",
  "C01": " Third session: $$.Execution.Input and $$ selections read by later states, and generated two-level fan-out machines (Parallel/Map roots, nested Parallel/Map, MaxConcurrency, Catch at three places, one failing leaf) compared with the reference interpreter under the canonical schedule.",
  "C02": " After quiescence the engine's periodic time-out back-stop is invoked long after the time-out and must find nothing to do; scenarios added for execution time-outs, three-level nesting, queue starts without message ids, the back-stop meeting an already ended execution.",
  "C03": " A further monitor requires that no timer of an ended execution stays armed (the uncancellable retry-delay timer is a recorded known finding); scenarios added for nested fan-out states entered after termination, empty Maps ending a Branch, ItemSelector failures.",
